@@ -223,7 +223,7 @@ type c08Msg struct {
 	Buf      int    `json:"bufio_size"`
 	Chunking int    `json:"chunking"` // 0 whole, 1 one byte per read, 2 seven bytes per read, 3/4/5 a read boundary at msg_len / -1 / +1
 	Under    bool   `json:"under_read_allowed,omitempty"`
-	Via      string `json:"via,omitempty"` // grammar | mutation | trailer-sweep | size-sweep
+	Via      string `json:"via,omitempty"`   // grammar | mutation | trailer-sweep | size-sweep
 	Entry    string `json:"entry,omitempty"` // "" = ReadLimitBody; stream = streamed body read to EOF; trailer = header.ReadTrailer on the bare trailer section
 	input    []byte
 }
